@@ -12,6 +12,7 @@ import (
 	sdcpb "github.com/sdcio/sdc-protos/sdcpb"
 	log "github.com/sirupsen/logrus"
 	"google.golang.org/protobuf/proto"
+	"google.golang.org/protobuf/types/known/emptypb"
 )
 
 // SchemaClientBound provides access to a certain vendor + model + version based schema
@@ -398,8 +399,10 @@ func TypedValueToYANGType(tv *sdcpb.TypedValue, schemaObject *sdcpb.SchemaElem) 
 		return ConvertToTypedValue(schemaObject, tv.GetStringVal(), tv.GetTimestamp())
 	case *sdcpb.TypedValue_UintVal:
 		return tv, nil
-	case *sdcpb.TypedValue_JsonIetfVal: // TODO:
-	case *sdcpb.TypedValue_JsonVal: // TODO:
+	case *sdcpb.TypedValue_JsonIetfVal:
+		return jsonValueToYANGType(tv.GetJsonIetfVal(), tv, schemaObject)
+	case *sdcpb.TypedValue_JsonVal:
+		return jsonValueToYANGType(tv.GetJsonVal(), tv, schemaObject)
 	case *sdcpb.TypedValue_LeaflistVal:
 		return tv, nil
 	case *sdcpb.TypedValue_ProtoBytes:
@@ -408,6 +411,50 @@ func TypedValueToYANGType(tv *sdcpb.TypedValue, schemaObject *sdcpb.SchemaElem) 
 		return tv, nil
 	}
 	return tv, nil
+}
+
+// jsonValueToYANGType converts a JSON / JSON_IETF encoded value that is addressed to a leaf or a leaf-list
+// (a gNMI device reporting leaf by leaf in one of the JSON encodings) to the YANG type of the node, the same
+// way the members of a JSON object are converted. Values addressed to containers are expanded by the callers.
+func jsonValueToYANGType(b []byte, tv *sdcpb.TypedValue, schemaObject *sdcpb.SchemaElem) (*sdcpb.TypedValue, error) {
+	if schemaObject.GetField() == nil && schemaObject.GetLeaflist() == nil {
+		return tv, nil
+	}
+	var v any
+	dec := json.NewDecoder(bytes.NewReader(b))
+	// keep long integers as they are written
+	dec.UseNumber()
+	if err := dec.Decode(&v); err != nil {
+		return nil, err
+	}
+	scalar := func(e any) (*sdcpb.TypedValue, error) {
+		switch e.(type) {
+		case nil, map[string]any, []any:
+			return nil, fmt.Errorf("unexpected JSON value %v for a leaf value", e)
+		}
+		return ConvertToTypedValue(schemaObject, fmt.Sprintf("%v", e), tv.GetTimestamp())
+	}
+	switch x := v.(type) {
+	case []any:
+		if schemaObject.GetLeaflist() == nil {
+			// [null] is the JSON encoding of the type empty
+			if len(x) == 1 && x[0] == nil && schemaObject.GetField().GetType().GetType() == "empty" {
+				return ConvertToTypedValue(schemaObject, "", tv.GetTimestamp())
+			}
+			return nil, fmt.Errorf("unexpected JSON array %v for a leaf value", x)
+		}
+		list := make([]*sdcpb.TypedValue, 0, len(x))
+		for _, e := range x {
+			etv, err := scalar(e)
+			if err != nil {
+				return nil, err
+			}
+			list = append(list, etv)
+		}
+		return &sdcpb.TypedValue{Timestamp: tv.GetTimestamp(), Value: &sdcpb.TypedValue_LeaflistVal{LeaflistVal: &sdcpb.ScalarArray{Element: list}}}, nil
+	default:
+		return scalar(x)
+	}
 }
 
 func ConvertToTypedValue(schemaObject *sdcpb.SchemaElem, v string, ts uint64) (*sdcpb.TypedValue, error) {
@@ -719,6 +766,28 @@ func convertUpdateTypedValue(_ context.Context, upd *sdcpb.Update, scRsp *sdcpb.
 		if !scRsp.GetSchema().GetContainer().GetIsPresence() {
 			return nil, nil
 		}
+		// a JSON value addressed to a presence container: {} is the container itself,
+		// an object with members is expanded by the caller like any other container
+		var jv []byte
+		switch v := upd.GetValue().GetValue().(type) {
+		case *sdcpb.TypedValue_JsonVal:
+			jv = v.JsonVal
+		case *sdcpb.TypedValue_JsonIetfVal:
+			jv = v.JsonIetfVal
+		}
+		if jv != nil {
+			var m map[string]any
+			if err := json.Unmarshal(jv, &m); err != nil {
+				return nil, err
+			}
+			if len(m) > 0 {
+				return nil, nil
+			}
+			return &sdcpb.Update{
+				Path:  upd.GetPath(),
+				Value: &sdcpb.TypedValue{Value: &sdcpb.TypedValue_EmptyVal{EmptyVal: &emptypb.Empty{}}},
+			}, nil
+		}
 		return upd, nil
 	case scRsp.GetSchema().GetLeaflist() != nil:
 		// leaf-list received as a key
@@ -757,6 +826,13 @@ func convertUpdateTypedValue(_ context.Context, upd *sdcpb.Update, scRsp *sdcpb.
 		switch upd.GetValue().Value.(type) {
 		case *sdcpb.TypedValue_LeaflistVal:
 			return upd, nil
+		case *sdcpb.TypedValue_JsonVal, *sdcpb.TypedValue_JsonIetfVal:
+			// the leaf-list reported as a JSON array
+			ctv, err := TypedValueToYANGType(upd.GetValue(), scRsp.GetSchema())
+			if err != nil {
+				return nil, err
+			}
+			return &sdcpb.Update{Path: upd.GetPath(), Value: ctv}, nil
 		default:
 			return nil, fmt.Errorf("unexpected leaf-list typedValue: %v", upd.GetValue())
 		}
